@@ -59,6 +59,9 @@ func c01Gen_(g *Gen) {
 		if sc.TwoOut {
 			g.Count("two-outputs")
 		}
+		if sc.Rotate {
+			g.Count("session-rotation")
+		}
 		// The observed trace is replayed by the Coq acceptor when the schedule of the input side is determined by
 		// the observations: with an input batch size of 1 every record is flushed to its pipeline's channel as soon
 		// as it is parsed, so the order in which the workers received the records of different connections and
